@@ -294,6 +294,9 @@ impl_dyn_sized!({name});
             body = '(' + ', '.join('pub ' + ty for ty in tys) + ');'
         deep = ''.join('        o.push(\' \'); self.%s.deep(o);\n' % acc(i) for i in range(len(fs)))
         addrs = ''.join('        self.%s.addrs(base, o);\n' % acc(i) for i in range(len(fs)))
+        # in-place operations on a container nested as the unsized tail go through the field reference
+        hop = ('    fn hop(&mut self, op: &HOp) -> String {\n        self.%s.hop(op)\n    }\n' % acc(len(fs) - 1)
+               if (not sized and len(fs) > 0) else '')
         src = f'''
 {'#[derive(Clone)]' if sized else ''}
 {self.attrs(t)}
@@ -306,7 +309,7 @@ impl DeepRead for {name} {{
     fn addrs(&self, base: usize, o: &mut Vec<(usize, usize)>) {{
         note(self, base, o);
 {addrs}    }}
-}}
+{hop}}}
 '''
         dflt = has_default(t)
         if sized:
@@ -351,6 +354,7 @@ impl_dyn_sized!({name});
         deep_arms = ''
         addr_arms = ''
         spec_arms = ''
+        hop_arms = ''
         refname = name if sized else name + 'Ref'
         for k, fs in enumerate(vs):
             tys = [self.rust_ty(f) for f in fs]
@@ -372,6 +376,11 @@ impl_dyn_sized!({name});
                 pat = '(' + ', '.join(binds) + ')'
                 lit_s = '%s::V%d(%s)' % (name, k, ', '.join('FromSpec::from_spec(&v[%d])' % i for i in range(len(fs))))
                 lit_u = '%sInitV%d(%s)' % (name, k, ', '.join('Dyn(&v[%d])' % i for i in range(len(fs))))
+            if not sized:
+                if len(fs) == 0:
+                    hop_arms += '            %sMut::V%d => "bad".into(),\n' % (name, k)
+                else:
+                    hop_arms += '            %sMut::V%d%s => %s.hop(op),\n' % (name, k, pat, binds[-1])
             deep_arms += '            %s::V%d%s => { o.push_str("(n%d");%s o.push(\')\'); }\n' % (
                 refname, k, pat, k, ''.join(" o.push(' '); %s.deep(o);" % b for b in binds))
             addr_arms += '            %s::V%d%s => {%s }\n' % (
@@ -381,6 +390,9 @@ impl_dyn_sized!({name});
             else:
                 spec_arms += '            Spec::Var(%d, v) => { assert_eq!(v.len(), %d); %s.emplace_unchecked(b) }\n' % (k, len(fs), lit_u)
         scrut = 'self' if sized else 'self.as_ref()'
+        enum_hop = '' if sized else (
+            '    #[allow(unused_variables)]\n    fn hop(&mut self, op: &HOp) -> String {\n        match self.as_mut() {\n'
+            + hop_arms + '        }\n    }\n')
         src = f'''
 {'#[derive(Clone)]' if sized else ''}
 {self.attrs(t)}
@@ -396,7 +408,7 @@ impl DeepRead for {name} {{
         match {scrut} {{
 {addr_arms}        }}
     }}
-}}
+{enum_hop}}}
 '''
         if sized:
             darm = f'            Spec::Default => <{name} as Default>::default(),\n' if has_default(t) else ''
